@@ -43,7 +43,9 @@ def build(case, seed, backend_config=None, layer_log=None):
             continue
         sub = {"d": d, "m": m, "n": n, "edims": [ed], "a0": [case["a0"][i]],
                "plan": [["env", r, 1, names[r]] for r in range(n)]}
-        pts.append(eng.build_pts(sub, {"rank3": bool(i % 2)}, DT)[0])
+        # every third process tensor is stored in another (monomial, not symmetric) basis of the system with its
+        # transform_in / transform_out set: the same environment
+        pts.append(eng.build_pts(sub, {"rank3": bool(i % 2), "transforms": (i + n + len(case["ctl"])) % 3 == 0}, DT)[0])
     rhos = [site_rho(d, seed, i) for i in range(nsites)]
     ctrl = oqupy.ChainControl([d] * nsites)
     for c in sorted(case["ctl"], key=lambda c: c[4]):
